@@ -68,13 +68,13 @@ def matches(pat, path, is_dir):
 def rewrite_prog(rng, pid):
     nid = [0]
     nsrc = rng.randint(1, 2)
-    sources = [rand_entries(rng, PLAIN + (ODD[:4] if rng.random() < 0.3 else []), 3, nid) for _ in range(nsrc)]
+    sources = [rand_entries(rng, PLAIN + (ODD[:4] if rng.random() < 0.6 else []), 3, nid) for _ in range(nsrc)]
     globs = []
     # the same sub-tree at two paths (a directory copied / moved between two backups: same tree blob) and an exclude
     # anchored below only one of them (added after seeded change C12-rewrite-memo-by-tree-id)
     dirs0 = [e["path"] for e in sources[0] if e["kind"] == "dir" and "/" not in e["path"]
              and any(x["path"].startswith(e["path"] + "/") and x["kind"] != "dir" for x in sources[0])
-             and e["path"].isascii() and not any(ch in e["path"] for ch in "\"\t\\]\n *?[")]
+             and e["path"].isascii() and not any(ch in e["path"] for ch in "\t\\]\n *?[")]
     if dirs0 and rng.random() < 0.6:
         d = rng.choice(dirs0)
         twin = "twin_" + d
@@ -84,7 +84,7 @@ def rewrite_prog(rng, pid):
             c["path"] = twin + e["path"][len(d):]
             target.append(c)
         kids = [x["path"] for x in sources[0] if x["path"].startswith(d + "/") and x["path"].isascii()
-                and not any(ch in x["path"] for ch in "\"\t\\]\n *?[")]
+                and not any(ch in x["path"] for ch in "\t\\]\n *?[")]
         if kids:
             globs.append("!/src/" + rng.choice(kids))
     allp = sorted({"src/" + e["path"] for s in sources for e in s})
@@ -92,19 +92,19 @@ def rewrite_prog(rng, pid):
         k = rng.random()
         cand = rng.choice(allp)
         base = cand.rsplit("/", 1)[-1]
-        if any(ch in base for ch in "\"\t\\]\n *?[") or not base.isascii():
+        if any(ch in base for ch in "\t\\]\n *?[") or not base.isascii():
             base = rng.choice(PLAIN)
         if k < 0.3:
             globs.append("!" + base)
         elif k < 0.45:
             globs.append("!*." + rng.choice(["txt", "log"]))
-        elif k < 0.6 and cand.isascii() and not any(ch in cand for ch in "\"\t\\]\n *?["):
+        elif k < 0.6 and cand.isascii() and not any(ch in cand for ch in "\t\\]\n *?["):
             globs.append("!/" + cand)
-        elif k < 0.7 and cand.isascii() and "/" in cand and not any(ch in cand for ch in "\"\t\\]\n *?["):
+        elif k < 0.7 and cand.isascii() and "/" in cand and not any(ch in cand for ch in "\t\\]\n *?["):
             globs.append("!" + cand)
         elif k < 0.8:
             globs.append("!" + base + "/")
-        elif k < 0.9 and cand.count("/") >= 2 and cand.isascii() and not any(ch in cand for ch in "\"\t\\]\n *?["):
+        elif k < 0.9 and cand.count("/") >= 2 and cand.isascii() and not any(ch in cand for ch in "\t\\]\n *?["):
             globs.append("!**/" + "/".join(cand.split("/")[-2:]))
         else:
             globs.append("!nonexistent-name")
